@@ -143,16 +143,21 @@ Fixpoint qok (n : node) : bool :=
   end.
 
 
-(* ---- the text hypotheses of the optimizer theorems (Proofs/OptTop.v text_ok), as a check over the positions of a
-   haystack: the element read at a position is a code point; an element below 128 is the byte at that position and a
-   byte below 128 is the element; an element from 128 up starts (ends) with a byte from 128 up and conversely. ---- *)
+(* ---- the text hypotheses of the optimizer theorems (Proofs/OptTop.v text_ok), as a check over the character
+   boundaries of a haystack (the end, and every byte that is not a UTF-8 continuation byte): reading an element or
+   stepping to the next attempt from a boundary leads to a boundary; the element read is a code point; an element
+   below 128 is the byte at that position and a byte below 128 is the element; an element from 128 up starts (ends)
+   with a byte from 128 up and conversely. ---- *)
+Definition is_bnd (h : hay) (q : nat) : bool :=
+  (q =? length h)%nat || match nth_error h q with Some b => negb (is_utf8_continuation b) | None => false end.
+
 Definition byte_res_eqb (r : R (option (N * nat))) (c : N) (q : nat) : bool :=
   match r with Ok (Some (b, q1)) => (b =? c) && (q1 =? q)%nat | _ => false end.
 
 Definition text_pos_ok (ix : indexer) (h : hay) (fwd : bool) (q : nat) : bool :=
   (match cnext ix fwd h q with
    | Ok (Some (c, q2)) =>
-       (c <=? CODE_POINT_MAX) &&
+       is_bnd h q2 && (c <=? CODE_POINT_MAX) &&
        (if c <? 128 then byte_res_eqb (next_byte fwd h q) c q2
         else match next_byte fwd h q with Ok (Some (b, _)) => 128 <=? b | _ => false end)
    | Ok None => match next_byte fwd h q with Ok None => true | _ => false end
@@ -167,4 +172,7 @@ Definition text_pos_ok (ix : indexer) (h : hay) (fwd : bool) (q : nat) : bool :=
    end).
 
 Definition text_ok_b (ix : indexer) (h : hay) : bool :=
-  forallb (fun q => text_pos_ok ix h true q && text_pos_ok ix h false q) (seq 0 (S (length h))).
+  forallb (fun q => negb (is_bnd h q) ||
+                    (text_pos_ok ix h true q && text_pos_ok ix h false q &&
+                     match ix_next_right_pos ix h q with Ok (Some q') => is_bnd h q' | _ => true end))
+          (seq 0 (S (length h))).
